@@ -2,8 +2,9 @@
    [interfeatures c fs] models FeatureDB.interfeatures over the features [fs] in the given order
    (create_introns calls it with the start-ordered level-1 exon children of each transcript);
    [gaps fs] are the consecutive pairs on one seqid with at least one base between them. *)
-From GV Require Import Base.Prelude Base.PyStr Model.Bins Model.DB Model.Parser Model.Query Model.Import Model.Attrs Model.Inter
-  Proofs.C15Proofs.
+From GV Require Import Base.Prelude Base.PyStr Model.Bins Model.DB Model.Parser Model.Query Model.Import Model.Attrs Model.Order Model.Inter Model.Introns
+  Proofs.C15Proofs Proofs.C15Introns.
+From Coq Require Import Sorting.Permutation Sorting.Sorted.
 Open Scope Z_scope.
 
 (* exactly one feature per gap, in order, none for touching/overlapping pairs or across seqids; each spans
@@ -39,3 +40,37 @@ Theorem C15_site_labels :
   (forall s, s <> PLUSs -> s <> MINUSs -> site_type true s = SPLICE /\ site_type false s = SPLICE).
 Proof. exact l_site_labels. Qed.
 Print Assumptions C15_site_labels.
+
+(* ---- create_introns / create_splice_sites over a database state [st] (Model/Introns.v) ----
+   transcripts: the level-1 children of every feature of grandparent_featuretype (one visit per parent link), or every
+   feature of parent_featuretype; exons of a transcript: its level-1 children of the exon type, ORDER BY start. *)
+
+(* the exons handed to interfeatures are exactly the transcript's level-1 children of the exon type, each once, by
+   ascending start *)
+Theorem C15_exons_of_transcript : forall st e t,
+  Permutation (exons_of st e t) (filter (fun r => str_eqb (r_ftype r) e) (children1 st (r_id t))) /\
+  StronglySorted start_le (exons_of st e t).
+Proof. exact l_exons_of. Qed.
+Print Assumptions C15_exons_of_transcript.
+
+(* "create_introns yields exactly these gaps between the start-ordered exons of each transcript": the output is the
+   concatenation, transcript by transcript, of one feature per gap of that transcript's exons, each built as gap_spec says *)
+Theorem C15_create_introns_exact : forall st v e c out, create_introns st v e c = Ok out ->
+  exists outs, out = concat outs /\
+    Forall2 (fun t o => Forall2 (gap_spec c) (gaps (exons_of st e t)) o) (transcripts st v) outs.
+Proof. exact l_create_introns. Qed.
+Print Assumptions C15_create_introns_exact.
+
+(* N exons on one seqid, each separated from the next by at least one base: N - 1 introns *)
+Theorem C15_introns_count : forall c fs out, separated fs -> interfeatures c fs = Ok out -> length out = Nat.pred (length fs).
+Proof. exact l_introns_count. Qed.
+Print Assumptions C15_introns_count.
+
+(* create_splice_sites: for every transcript the left sites, then for every transcript the right sites, each list being
+   splice_side of that transcript's exons with the transcript's own strand (C15_splice_sites, C15_site_labels) *)
+Theorem C15_create_splice_sites_exact : forall st v e merge numeric out, create_splice_sites st v e merge numeric = Ok out ->
+  exists lefts rights, out = concat lefts ++ concat rights /\
+    Forall2 (fun t o => splice_side true (r_strand t) merge numeric (exons_of st e t) = Ok o) (transcripts st v) lefts /\
+    Forall2 (fun t o => splice_side false (r_strand t) merge numeric (exons_of st e t) = Ok o) (transcripts st v) rights.
+Proof. exact l_create_splice_sites. Qed.
+Print Assumptions C15_create_splice_sites_exact.
